@@ -78,7 +78,7 @@ class TLRPattern:
         """Check if pattern matches content."""
         if self.is_regex and self._compiled:
             return bool(self._compiled.search(content))
-        return self.pattern.lower() in content.lower()
+        return self.pattern.casefold() in content.casefold()
 
 
 class StructuralValidator(Protocol):
